@@ -459,6 +459,8 @@ class Interp:
                 return list(self.call_function(m, [], {}, self_obj=v))
         if hasattr(v, "__iter__") and not isinstance(v, (Obj,)):
             return list(v)
+        if v is None or isinstance(v, (bool, int, float, Fraction, complex)):
+            raise LiftRaise(f"TypeError: '{type(v).__name__}' object is not iterable", node)
         raise Unsupported(f"cannot iterate over {v!r} ({norm(node) if node is not None else ''})")
 
     def binop(self, op, a, b, node=None):
@@ -670,12 +672,12 @@ class Interp:
                     if "staticmethod" in decos:
                         return Closure(r.node, Env(), r.module, self, cls=r.cls, name=f"{k.name}.{attr}")
                     return BoundMethod(self, r, obj)
-                if isinstance(r, ast.AST):
-                    return self.eval(r, Env(), k.module)
                 if self.class_attrs:
                     for kk in k.mro():
                         if (kk.module.name, kk.name, attr) in self.class_attrs:
                             return self.class_attrs[(kk.module.name, kk.name, attr)]
+                if isinstance(r, ast.AST):
+                    return self._class_body_value(k, attr, r)
                 if getattr(self, "type_model", None) is not None:
                     r = self.ufl_type_attr(k, attr, obj)
                     if r is not NotImplemented:
@@ -712,7 +714,7 @@ class Interp:
             if isinstance(r, FuncInfo):
                 return Closure(r.node, Env(), r.module, self, cls=r.cls, name=f"{obj.name}.{attr}")
             if isinstance(r, ast.AST):
-                return self.eval(r, Env(), obj.module)
+                return self._class_body_value(obj, attr, r)
             if attr == "__new__":
                 # no __new__ in the repository MRO: object.__new__
                 return self.object_new
@@ -729,6 +731,9 @@ class Interp:
             return "float" if obj is Fraction else obj.__name__
         if isinstance(obj, Fraction) and attr in ("real", "imag", "conjugate", "numerator", "denominator"):
             return getattr(obj, attr)
+        if isinstance(obj, complex) and attr in ("real", "imag", "conjugate"):
+            v = getattr(obj, attr)
+            return _num(v) if not callable(v) else v
         if isinstance(obj, int) and attr in ("real", "imag", "conjugate"):
             return getattr(obj, attr)
         if isinstance(obj, Idx) and attr == "count":
@@ -736,6 +741,17 @@ class Interp:
         if getattr(type(obj), "__lift_host__", False) and not attr.startswith("_"):
             return getattr(obj, attr)
         raise Unsupported(f"attribute {attr} on {type(obj).__name__} ({norm(node)})")
+
+    def _class_body_value(self, k, attr, r):
+        """value of a class-body assignment: evaluated once in the defining class's module and kept
+        (a class-level dict / list is one shared object, e.g. the flyweight caches)"""
+        ow = self.prog.lookup_with_owner(k, attr)
+        owner = ow[0] if ow else k
+        key = (owner.module.name, owner.name, attr)
+        cache = self.__dict__.setdefault("_class_body_cache", {})
+        if key not in cache:
+            cache[key] = self.eval(r, Env(), owner.module)
+        return cache[key]
 
     def ufl_type_attr(self, k, attr, obj=None):
         """class attributes attached by the @ufl_type decorator (from the type model)"""
@@ -1319,6 +1335,9 @@ class Interp:
         if f in (BUILTINS["list"], BUILTINS["tuple"]) and len(args) == 1 and self.obj_class(args[0]) is not None:
             r = self.iterate(args[0], node)
             return r if f is BUILTINS["list"] else tuple(r)
+        if callable(f) and not isinstance(f, (Closure, BoundMethod, Obj)) and any(self.obj_class(a) is not None for a in args) and f in _ITER_BUILTINS:
+            # builtins consuming iterables: instances of repository classes iterate through their lifted __iter__
+            args = [self.iterate(a, node) if self.obj_class(a) is not None and self.find_method(self.obj_class(a), "__iter__")[0] is not None else a for a in args]
         if isinstance(f, Closure):
             return self.call_closure(f, args, kwargs)
         if isinstance(f, BoundMethod):
@@ -1558,6 +1577,8 @@ STDLIB = {
     "functools.cmp_to_key": __import__("functools").cmp_to_key,
     "functools.reduce": __import__("functools").reduce,
 }
+
+_ITER_BUILTINS = {BUILTINS[n] for n in ("enumerate", "zip", "sum", "sorted", "reversed", "any", "all", "map", "filter", "min", "max", "set", "frozenset")}
 
 _PYTYPES = {
     BUILTINS["int"]: int,
